@@ -342,6 +342,7 @@ func runC07(c *core.Ctx) {
 				isNil[core.Edge{From: e.From, Succ: 1 - e.Succ}] = true
 			}
 			calls := 0
+			matchC, candC := reasonConst("VisitReason_SelectionMatch"), reasonConst("VisitReason_SelectionCandidate")
 			for _, ci := range core.CallsR(fn) {
 				if !isCb(ci) {
 					continue
@@ -353,30 +354,53 @@ func runC07(c *core.Ctx) {
 				}
 				calls++
 				node, reason := cc.Args[1], cc.Args[2]
-				rc := core.ConstVal(reason)
-				switch {
-				case extractOf(node, match, 0):
-					_, r := core.Reach(fn, nil, isTarget(ci), nonNil, nil)
-					if r || rc == nil || rc.ExactString() != reasonConst("VisitReason_SelectionMatch") {
-						good = false
+				// what the callback is told is judged per path (the two cases may share one call whose arguments
+				// were chosen earlier): on every path over match != nil it gets the Match result and the match
+				// reason; on every path over match == nil a node that is not the Match result and the candidate reason
+				fromMatch := func(v ssa.Value) bool {
+					if extractOf(v, match, 0) {
+						return true
 					}
-				default:
-					fromMatch := false
-					for w := range core.BackSlice(node, core.SliceOpts{Stores: true, Region: rg}) {
+					if _, isPhi := v.(*ssa.Phi); isPhi {
+						return false // unresolved on this path: judged by the slice below
+					}
+					for w := range core.BackSlice(v, core.SliceOpts{Stores: true, Region: rg}) {
 						if extractOf(w, match, 0) {
-							fromMatch = true
+							return true
 						}
 					}
-					if fromMatch || !isNodeType(node.Type()) {
-						good = false
+					return false
+				}
+				wrongOnMatch := func(in ssa.Instruction) bool {
+					if in != ssa.Instruction(ci) {
+						return false
 					}
-					_, r := core.Reach(fn, nil, isTarget(ci), isNil, nil)
-					if r || rc == nil || rc.ExactString() != reasonConst("VisitReason_SelectionCandidate") {
-						good = false
+					k, okK := core.PathConst(reason)
+					return !(extractOf(core.PathValue(node), match, 0) && okK && k == matchC)
+				}
+				wrongOnMiss := func(in ssa.Instruction) bool {
+					if in != ssa.Instruction(ci) {
+						return false
 					}
+					k, okK := core.PathConst(reason)
+					return fromMatch(core.PathValue(node)) || !isNodeType(node.Type()) || !(okK && k == candC)
+				}
+				if _, r := core.Reach(fn, nil, wrongOnMatch, isNil, nil); r {
+					good = false
+				}
+				if _, r := core.Reach(fn, nil, wrongOnMiss, nonNil, nil); r {
+					good = false
 				}
 			}
-			if calls != 2 {
+			if calls == 0 || len(nonNil) == 0 {
+				good = false
+			}
+			// both cases must actually reach a callback
+			anyCb := func(in ssa.Instruction) bool { ci, ok := in.(ssa.CallInstruction); return ok && isCb(ci) }
+			if _, r := core.Reach(fn, nil, anyCb, isNil, nil); !r {
+				good = false
+			}
+			if _, r := core.Reach(fn, nil, anyCb, nonNil, nil); !r {
 				good = false
 			}
 		}
